@@ -614,7 +614,7 @@ public:
         }
 
         if constexpr(IsPeriodic){
-            assert(std::size(indexes) == getNbNeighborsPerLeaf());
+            assert(upperExclusion || std::size(indexes) == getNbNeighborsPerLeaf());
         }
 
         return indexes;
